@@ -170,6 +170,33 @@ def check_option_selector(costs, variant):
     return []
 
 
+BIG_SIZES = (31, 32, 33, 63, 64, 65, 100, 127, 128, 129, 255, 256, 257, 1000, 1025)
+
+
+def big_population(family, n):
+    """Structured populations far beyond the enumerated sizes."""
+    if family == "chain":            # n fronts of one member, listed from worst to best
+        return [(float(n - i), float(n - i), True) for i in range(n)]
+    if family == "antichain":        # one front of n members
+        return [(float(i), float(n - i), True) for i in range(n)]
+    if family == "grid":             # sqrt(n) x sqrt(n) grid plus a tail: many fronts of growing and shrinking size
+        k = int(n ** 0.5)
+        pts = [(float(i), float(j), True) for i in range(k) for j in range(k)]
+        return (pts + [(float(k + i), 0.0, True) for i in range(n - len(pts))])[:n]
+    if family == "dups":             # every cost vector twice, half of the population infeasible
+        return [(float(i // 2 % 7), float((i // 2 * 3) % 5), (i % 4) < 2) for i in range(n)]
+    if family == "twolevel":         # a small front that dominates one big front
+        return [(0.0, 0.0, True)] + [(1.0 + i, float(n - i), True) for i in range(n - 1)]
+    # "lcg": pseudo-random integer costs from a fixed linear congruential sequence
+    out, x = [], 12345 + n
+    for i in range(n):
+        x = (1103515245 * x + 12345) % (2 ** 31)
+        a = x % 17
+        x = (1103515245 * x + 12345) % (2 ** 31)
+        out.append((float(a), float(x % 13), (x // 7) % 5 != 0))
+    return out
+
+
 def relation_code(costs):
     n = len(costs)
     code = 0
@@ -180,6 +207,21 @@ def relation_code(costs):
 
 
 def _shard(shard, col: Collector):
+    if shard[0] == "big":
+        _, n = shard
+        for family in ("chain", "antichain", "grid", "dups", "twolevel", "lcg"):
+            if n >= 1000 and family in ("grid", "dups", "twolevel"):
+                continue
+            costs = big_population(family, n)
+            for order in ("as-listed", "reversed"):
+                cs = costs if order == "as-listed" else costs[::-1]
+                col.case()
+                col.nontrivial(("big", family, n, order))
+                col.count("large_populations")
+                for k, msg in check_case(cs):
+                    col.violation(k.replace(":n=%d" % n, ":large-population") + ":" + family, "big", msg[:600], {"family": family, "n": n, "order": order})
+        col.sample({"kind": "large structured populations", "n": n, "families": ["chain", "antichain", "grid", "dups", "twolevel", "lcg"]}, 1)
+        return
     if shard[0] == "copies":
         _, how, first = shard
         alpha = alphabet("V3x2F")
@@ -253,6 +295,9 @@ def _shard(shard, col: Collector):
 
 
 def replay(sub, case):
+    if sub == "big":
+        costs = big_population(case["family"], case["n"])
+        return check_case(costs if case["order"] == "as-listed" else costs[::-1])
     if sub == "copies":
         return check_copies(tuple(tuple(c) for c in case["costs_a"]), tuple(tuple(c) for c in case["extra"]), case["how"])
     if sub == "optsel":
@@ -305,6 +350,8 @@ def run(tier, seed):
             shards.append(("copies", how, a))
     for variant in ("eps_class", "eps_list", "pareto_scalar"):
         shards.append(("optsel", variant))
+    for n in BIG_SIZES:
+        shards.append(("big", n))
     col = run_shards(_shard, shards)
     posets = {1: 1, 2: 3, 3: 19, 4: 219, 5: 4231}
     realised = {k: len(v) + 1 for k, v in col.sets.items() if k.startswith("rel_n")}  # +1: the empty relation
